@@ -239,6 +239,74 @@ def dag_fingerprints(nodes):
     return fps, size
 
 
+BF_CACHE_SLOTS = ("_arguments", "_coefficients", "_hash", "_domains", "_domain_numbering")
+
+
+def _bf_slots(cls):
+    out = []
+    for k in cls.__mro__:
+        sl = k.__dict__.get("__slots__", ())
+        if isinstance(sl, str):
+            sl = (sl,)
+        for n in sl:
+            if n not in ("__weakref__", "__dict__") and n not in BF_CACHE_SLOTS and n not in out:
+                out.append(n)
+    return out
+
+
+def bf_structure(x, namer, visiting=None, depth=0):
+    """Recursive, id-free structural description of a BaseForm tree (cycle safe)."""
+    visiting = set() if visiting is None else visiting
+    if isinstance(x, (tuple, list)):
+        return [type(x).__name__] + [bf_structure(v, namer, visiting, depth + 1) for v in x]
+    if isinstance(x, Form):
+        o = observe(x, namer, full=False)
+        return ["Form", sorted(o.lean.items())]
+    if isinstance(x, Expr):
+        nodes = dag_nodes([x])
+        fps, _ = dag_fingerprints(nodes)
+        return ["Expr", fps[id(x)]]
+    if isinstance(x, BaseForm):
+        if id(x) in visiting or depth > 40:
+            return ["CYCLE", type(x).__name__]
+        visiting.add(id(x))
+        parts = [type(x).__name__]
+        for sl in _bf_slots(type(x)):
+            try:
+                v = getattr(x, sl)
+            except AttributeError:
+                parts.append([sl, MISSING])
+                continue
+            parts.append([sl, bf_structure(v, namer, visiting, depth + 1)])
+        d = getattr(x, "__dict__", None)
+        if d:
+            for k in sorted(d):
+                if k not in BF_CACHE_SLOTS:
+                    parts.append([k, bf_structure(d[k], namer, visiting, depth + 1)])
+        visiting.discard(id(x))
+        return parts
+    if x is None or isinstance(x, (bool, int, float, str)):
+        return [type(x).__name__, repr(x)]
+    return ["R", _safe_repr(x)]
+
+
+def bf_exprs(x, out=None, visiting=None):
+    """Expr roots reachable from a BaseForm tree (integrands of Forms, Expr operands)."""
+    out = [] if out is None else out
+    visiting = set() if visiting is None else visiting
+    if isinstance(x, Form):
+        out.extend(i._integrand for i in x._integrals)
+    elif isinstance(x, Expr):
+        out.append(x)
+    elif isinstance(x, BaseForm):
+        if id(x) in visiting:
+            return out
+        visiting.add(id(x))
+        for c in getattr(x, "ufl_operands", ()):
+            bf_exprs(c, out, visiting)
+    return out
+
+
 def _try(f):
     try:
         return f()
@@ -317,7 +385,7 @@ def observe(obj, namer=None, full=True):
         roots = [obj]
     elif kind == "baseform":
         integrals = []
-        roots = []
+        roots = [r for r in bf_exprs(obj) if isinstance(r, Expr)]
     else:
         raise TypeError(f"cannot observe {type(obj).__name__}")
     nodes = dag_nodes(roots)
@@ -336,6 +404,16 @@ def observe(obj, namer=None, full=True):
         lean["ufl_shape"] = repr(_try(lambda: obj.ufl_shape))
         lean["ufl_free_indices"] = repr(_try(lambda: obj.ufl_free_indices))
         lean["ufl_index_dimensions"] = repr(_try(lambda: obj.ufl_index_dimensions))
+    if kind == "baseform":
+        lean["structure"] = repr(bf_structure(obj, namer))
+        bf_saved = {sl: getattr(obj, sl, MISSING) for sl in BF_CACHE_SLOTS}
+        o.raw = {
+            "_hash": None if bf_saved["_hash"] in (None, MISSING) else bf_saved["_hash"],
+            "_arguments": None if bf_saved["_arguments"] in (None, MISSING) else _safe_repr(bf_saved["_arguments"]),
+            "_coefficients": None
+            if bf_saved["_coefficients"] in (None, MISSING)
+            else _safe_repr(bf_saved["_coefficients"]),
+        }
     if kind != "baseform":
         lean["arguments(walk)"] = repr(_terminals_of(nodes, Argument, lambda a: (a.number(), str(a.part()))))
         lean["coefficients(walk)"] = repr(_terminals_of(nodes, Coefficient, lambda c: c.count()))
@@ -364,6 +442,13 @@ def observe(obj, namer=None, full=True):
             for s in FORM_CACHE_SLOTS:
                 if saved[s] is not MISSING:
                     setattr(obj, s, None)
+        if kind == "baseform":
+            for s in BF_CACHE_SLOTS:
+                if bf_saved[s] is not MISSING:
+                    try:
+                        setattr(obj, s, None)
+                    except AttributeError:
+                        pass
         small = o.tree <= REPR_CAP
         if kind == "baseform":
             small = True
@@ -391,6 +476,13 @@ def observe(obj, namer=None, full=True):
                         pass
                 else:
                     setattr(obj, s, saved[s])
+        if kind == "baseform":
+            for s in BF_CACHE_SLOTS:
+                if bf_saved[s] is not MISSING:
+                    try:
+                        setattr(obj, s, bf_saved[s])
+                    except AttributeError:
+                        pass
     o.fresh = fresh
     o.stale = stale_caches(o, o)
     return o
@@ -404,6 +496,13 @@ def stale_caches(cur, ref, same_exec=True):
     out = []
     if ref.fresh is None:
         return out
+    if cur.kind == "baseform":
+        if cur.raw.get("_arguments") is not None and cur.raw["_arguments"] != ref.fresh.get("arguments()"):
+            out.append("stale BaseForm._arguments")
+        if cur.raw.get("_coefficients") is not None and cur.raw["_coefficients"] != ref.fresh.get(
+            "coefficients()"
+        ):
+            out.append("stale BaseForm._coefficients")
     if cur.kind == "form":
         if same_exec and cur.raw.get("_hash") is not None and cur.raw["_hash"] != ref.fresh.get("hash"):
             out.append("stale Form._hash")
